@@ -46,6 +46,11 @@ CLAIMS = {
         text="Machine-checked: the literal occupies one word for int 8/16/32, float 16/32 and unknown types, two words low-word-first for 64 bits, and is rejected with TypeUnsupported (nothing consumed) for every other width; declarations bind ids, value definitions propagate the tracked type of their result type, the newest binding wins; every parse starts from the empty tracker; the assembler emits 1 resp. 2 words. Tied to parser.rs/tracker.rs by histories over 5 deliberately reused ids so that state leaking between parses would surface.",
         note="Trusted: Lean kernel + standard axioms; hand model (Parser.lean parseLiteral/Tracker) + differential harness; oracle restates the rule independently.",
         ref="DESIGN.md §8 C10"),
+    "C05": dict(
+        technique="Lean 4 refinement proof: the loader model simulates a three-state bracket automaton (same verdict, same error, same instruction) for all instruction sequences; invariant proofs for shape and sections; exhaustive short words + opcode sweep differential against the real Loader",
+        text="Machine-checked for every instruction sequence and table set: the loader accepts iff the bracket automaton A (the specification, ~25 lines) accepts and otherwise returns A's error at the first offending instruction or the unclosed error at the end; on success every function has its defining and ending instruction and every block its label and a final terminator occurring nowhere else; each opcode-determined section is exactly the order-preserving filter of the input by class. The model is tied to dr/loader.rs by all words of length <= 5 over a 9-letter alphabet, seeded longer words and every one of the 787 opcodes at module level and inside a block, judged also by an independent Python automaton.",
+        note="Trusted: Lean kernel + standard axioms; hand model Loader.lean tied by the `load` channel; classification predicates come from the extracted reflect table (C16 judges them against the specification); vendor constants ConstantPipeStorage/ConstantStringAMDX/SpecConstantStringAMDX/ConstantFunctionPointerINTEL are outside the claim as the property states.",
+        ref="DESIGN.md §8 C05"),
 }
 
 
